@@ -101,6 +101,12 @@ def tableNameStr (t : Tree) : String :=
   let q := tableIdentStr ((t.field "Qualifier").getD Tree.nil)
   if n == "" then "" else if q == "" then n else q ++ "." ++ n
 
+/-- the loop of `checkTableExprsMatch`: `break` on a partial match, count the full matches -/
+def tableLoop (f : Tree → Bool × Bool) (one : Bool) (counter : Nat) : List Tree → Bool × Nat
+  | [] => (one, counter)
+  | x :: xs =>
+    if (f x).1 then (if (f x).2 then tableLoop f true (counter + 1) xs else (true, counter)) else tableLoop f one counter xs
+
 /-- `checkTableExprMatch` / `checkTableExprsMatch` (mutually recursive in Go through JoinTableExpr and
 ParenTableExpr); `fuel` bounds the nesting depth (any value above the tree's depth gives the same result). -/
 def checkTableExpr (set : List String) : Nat → Tree → Bool × Bool
@@ -117,13 +123,7 @@ def checkTableExpr (set : List String) : Nat → Tree → Bool × Bool
       (l.1 || r.1, l.2 && r.2)
     | "ParenTableExpr" =>
       let es := ((t.field "Exprs").getD Tree.nil).kids
-      -- checkTableExprsMatch: loop with `break` on a partial match, `counter == len(tables)`
-      let rec loop (one : Bool) (counter : Nat) : List Tree → Bool × Nat
-        | [] => (one, counter)
-        | x :: xs =>
-          let (o, a) := checkTableExpr set fuel x
-          if o then (if a then loop true (counter + 1) xs else (true, counter)) else loop one counter xs
-      let (one, c) := loop false 0 es
+      let (one, c) := tableLoop (checkTableExpr set fuel) false 0 es
       (one, c == es.length)
     | _ => (false, false)
 
@@ -140,5 +140,50 @@ def tablesMatch (t : Tree) (set : List String) : Bool × Bool :=
     let b := set.contains n
     (b, b)
   | _ => (false, false)
+
+/-- once some element of the list matches, the loop reports "at least one" -/
+theorem tableLoop_one (f : Tree → Bool × Bool) (one : Bool) (c : Nat) (xs : List Tree)
+    (h : one = true ∨ ∃ x ∈ xs, (f x).1 = true) : (tableLoop f one c xs).1 = true := by
+  induction xs generalizing one c with
+  | nil =>
+    rcases h with h | ⟨x, hx, _⟩
+    · simpa [tableLoop] using h
+    · cases hx
+  | cons y ys ih =>
+    simp only [tableLoop]
+    cases hy : (f y).1
+    · simp only [Bool.false_eq_true, if_false]
+      apply ih
+      rcases h with h | ⟨x, hx, hfx⟩
+      · exact Or.inl h
+      · rcases List.mem_cons.mp hx with e | e
+        · subst e; simp [hy] at hfx
+        · exact Or.inr ⟨x, e, hfx⟩
+    · simp only [if_true]
+      cases (f y).2
+      · simp
+      · simp only [if_true]; exact ih true (c + 1) (Or.inl rfl)
+
+/-- a plain table of the set in the top-level FROM list of a SELECT is reported by `CheckTableNamesMatch` -/
+theorem tablesMatch_top_level (t x : Tree) (set : List String)
+    (hk : t.kind = "Select") (hx : x ∈ ((t.field "From").getD Tree.nil).kids)
+    (hxk : x.kind = "AliasedTableExpr") (he : ((x.field "Expr").getD Tree.nil).kind = "TableName")
+    (hin : set.contains (tableNameStr ((x.field "Expr").getD Tree.nil)) = true) :
+    (tablesMatch t set).1 = true := by
+  have hd : ∃ n, t.depth = n + 1 := by
+    cases t with
+    | leaf b => exact ⟨0, rfl⟩
+    | node k ks => exact ⟨Tree.depthList ks, rfl⟩
+  obtain ⟨n, hn⟩ := hd
+  have hfx : (checkTableExpr set (n + 1) x).1 = true := by
+    have hin' : tableNameStr ((x.field "Expr").getD Tree.nil) ∈ set := by simpa using hin
+    simp [checkTableExpr, hxk, he, hin']
+  unfold tablesMatch
+  simp only [hk, checkTableExprs, hn]
+  have hw : (Tree.node "ParenTableExpr" [Tree.node "TableExprs" ((t.field "From").getD Tree.nil).kids]).kind = "ParenTableExpr" := rfl
+  have hf : (((Tree.node "ParenTableExpr" [Tree.node "TableExprs" ((t.field "From").getD Tree.nil).kids]).field "Exprs").getD Tree.nil).kids
+      = ((t.field "From").getD Tree.nil).kids := by rfl
+  simp only [checkTableExpr, hw, hf]
+  exact tableLoop_one _ false 0 _ (Or.inr ⟨x, hx, hfx⟩)
 
 end AcraModel.Censor
